@@ -19,7 +19,7 @@ LEVEL_TEXT = ('seeded exploration of enter/exit histories (with / decorator, nes
 LEVEL_NOTE = ('trusted: sim/rp66.py; the standard\'s value sets for units / index type / equipment type and location are taken from '
               'dliswriter.enums (no offline transcription of the standard available); interrupts fire only below the context body, '
               'never in the frames of the context manager itself')
-TIERS = {'quick': {'cases': 900, 'wall': 45}, 'thorough': {'cases': 200000, 'wall': 840}}
+TIERS = {'quick': {'cases': 4000, 'wall': 45}, 'thorough': {'cases': 200000, 'wall': 840}}
 RULE = ('case = seeded history of nested high-compatibility blocks around a specification with at most one breach, plus the same '
         'specification outside the mode; non-trivial = an exception left a block, or blocks were nested, or a breach was present; '
         'distinct = case digest')
